@@ -1,6 +1,1377 @@
+//! [S] control skeleton (DESIGN.md §4.3): the control structure of a function with every
+//! numerical value erased.  Kept: declared integer/boolean variables, tracked objects and the
+//! calls declared as events; every condition that mentions an erased value becomes `nd()`;
+//! `e?` on an erased call becomes `if nd() { return Err(SkErr::Callee) }`.
+//!
+//! //@skeleton <file> <path> [name=<n>]
+//!   //@returns <type>                    skeleton return type (Result<(), SkErr>, Result<Vle, SkErr>, bool, ...)
+//!   //@params <text>                     skeleton parameter list (names must be parameters of the real fn, or `self`)
+//!   //@keep <expr-text> [as <name>]: <type>   kept scalar (a variable, or a dotted path given a name)
+//!   //@track <name>: <type>              tracked local object
+//!   //@event <name> [args=i,j] [free]    tracked callee; kept call-argument indices; `free` = not a method
+//!   //@readonly a,b,c                    methods of tracked objects that only read
+//!   //@flag <name>                       local boolean flag (initially false), appended to the result tuple
+//!   //@on assign <var> => <stmt>         inserted after every assignment to <var>
+//!   //@on then <pattern> => <stmt>       inserted at the start of the then-branch of an `if` whose condition contains <pattern>
+//!   //@on mutcall <var> => <stmt>        inserted after every method call statement on <var> that is not read-only
+//!   //@loop <k> (+ lines)                loop contract of the k-th loop
+//!   plain lines: requires / ensures of the skeleton
+
+use crate::extract::{line_of, Offsets};
+use crate::locate::find_fn;
+use crate::pattern;
 use crate::template::Block;
 use crate::Ctx;
-use serde_json::Value;
-pub fn skeleton_fn(_ctx: &mut Ctx, _blk: &Block) -> Result<(String, Value), String> {
-    Err("not implemented".into())
+use quote::ToTokens;
+use serde_json::{json, Value};
+use std::collections::HashMap;
+use syn::spanned::Spanned;
+
+type R<T> = Result<T, String>;
+
+struct Event {
+    args: Vec<usize>,
+    free: bool,
+}
+
+struct LoopCtx {
+    label: Option<String>,
+    counter: Option<String>,
+}
+
+struct Sk<'a> {
+    src: &'a str,
+    offs: &'a Offsets,
+    kept: HashMap<String, String>,    // variable name -> type
+    alias: HashMap<String, String>,   // expression text (no spaces) -> kept name
+    tracked: HashMap<String, String>, // name -> type
+    events: HashMap<String, Event>,
+    readonly: Vec<String>,
+    flags: Vec<String>,
+    on_assign: Vec<(String, String)>,
+    on_then: Vec<(Vec<pattern::Pat>, String, String)>,
+    on_mutcall: Vec<(String, String)>,
+    loop_specs: HashMap<usize, Vec<String>>,
+    loop_no: usize,
+    loops: Vec<LoopCtx>,
+    returns: String,
+    tmp: usize,
+    notes: Vec<(String, usize, String)>,
+    dropped: usize,
+    used_hooks: Vec<String>,
+}
+
+fn nospace(e: &impl ToTokens) -> String {
+    e.to_token_stream().to_string().split_whitespace().collect::<Vec<_>>().join("")
+}
+
+fn ind(lines: Vec<String>) -> Vec<String> {
+    lines.into_iter().map(|l| format!("    {l}")).collect()
+}
+
+impl<'a> Sk<'a> {
+    fn line(&self, sp: proc_macro2::Span) -> usize {
+        line_of(self.src, self.offs.range(self.src, sp).0)
+    }
+    fn srcnote(&self, sp: proc_macro2::Span) -> String {
+        let (s, e) = self.offs.range(self.src, sp);
+        let first = self.src[s..e].lines().next().unwrap_or("").trim();
+        let mut t: String = first.chars().take(90).collect();
+        t = t.replace("*/", "* /");
+        format!("// src:{}: {}", self.line(sp), t)
+    }
+    fn note(&mut self, rule: &str, sp: proc_macro2::Span, msg: &str) {
+        let l = self.line(sp);
+        self.notes.push((rule.into(), l, msg.into()));
+    }
+    fn fresh(&mut self, b: &str) -> String {
+        self.tmp += 1;
+        format!("{b}__{}", self.tmp)
+    }
+    fn ret_stmt(&self, v: &str) -> String {
+        if self.flags.is_empty() {
+            format!("return {v};")
+        } else {
+            format!("return ({v}, {});", self.flags.join(", "))
+        }
+    }
+    fn err_callee(&self) -> R<String> {
+        if self.returns.starts_with("Result") {
+            Ok("Err(SkErr::Callee)".into())
+        } else if self.returns.starts_with("Option") {
+            Ok("None".into())
+        } else {
+            Err("construct outside rule list (skeleton): `?` in a function that does not return Result/Option".into())
+        }
+    }
+    fn nd_of(&self, ty: &str) -> String {
+        match ty {
+            "bool" => "nd()".into(),
+            "usize" => "nd_usize()".into(),
+            t => format!("arb::<{t}>()"),
+        }
+    }
+    fn is_tracked_root(&self, e: &syn::Expr) -> Option<String> {
+        match e {
+            syn::Expr::Path(p) => {
+                let id = p.path.get_ident()?.to_string();
+                if self.tracked.contains_key(&id) {
+                    Some(id)
+                } else {
+                    None
+                }
+            }
+            syn::Expr::Paren(p) => self.is_tracked_root(&p.expr),
+            syn::Expr::Reference(r) => self.is_tracked_root(&r.expr),
+            syn::Expr::Unary(u) if matches!(u.op, syn::UnOp::Deref(_)) => self.is_tracked_root(&u.expr),
+            syn::Expr::MethodCall(m) if m.method == "clone" || m.method == "as_ref" || m.method == "as_mut" => self.is_tracked_root(&m.receiver),
+            _ => None,
+        }
+    }
+    fn root_ident(e: &syn::Expr) -> Option<String> {
+        match e {
+            syn::Expr::Path(p) => p.path.get_ident().map(|i| i.to_string()),
+            syn::Expr::Paren(p) => Self::root_ident(&p.expr),
+            syn::Expr::Unary(u) => Self::root_ident(&u.expr),
+            syn::Expr::Field(f) => Self::root_ident(&f.base),
+            syn::Expr::Index(i) => Self::root_ident(&i.expr),
+            syn::Expr::Reference(r) => Self::root_ident(&r.expr),
+            syn::Expr::MethodCall(m) => Self::root_ident(&m.receiver),
+            _ => None,
+        }
+    }
+
+    fn event_call(&mut self, name: &str, recv: Option<String>, args: &syn::punctuated::Punctuated<syn::Expr, syn::token::Comma>, out: &mut Vec<String>) -> R<String> {
+        let idx = self.events[name].args.clone();
+        let mut kept_args = Vec::new();
+        for (i, a) in args.iter().enumerate() {
+            if idx.contains(&i) {
+                match self.val(a, out)? {
+                    Some(t) => kept_args.push(t),
+                    None => {
+                        // kept position, erased value: arbitrary
+                        let k = self.fresh("a");
+                        out.push(format!("let {k} = arb();"));
+                        kept_args.push(k);
+                    }
+                }
+            } else {
+                self.effects(a, out)?;
+            }
+        }
+        Ok(match recv {
+            Some(r) => format!("{r}.{name}({})", kept_args.join(", ")),
+            None => format!("{name}({})", kept_args.join(", ")),
+        })
+    }
+
+    /// value of an expression in the skeleton (None = erased); effects of erased parts go to `out`
+    fn val(&mut self, e: &syn::Expr, out: &mut Vec<String>) -> R<Option<String>> {
+        use syn::Expr;
+        let key = nospace(e);
+        if let Some(n) = self.alias.get(&key) {
+            return Ok(Some(n.clone()));
+        }
+        match e {
+            Expr::Lit(l) => match &l.lit {
+                syn::Lit::Int(i) if i.suffix().is_empty() || i.suffix() == "usize" => Ok(Some(i.base10_digits().to_string())),
+                syn::Lit::Bool(b) => Ok(Some(b.value.to_string())),
+                _ => Ok(None),
+            },
+            Expr::Path(p) => {
+                if let Some(id) = p.path.get_ident() {
+                    let s = id.to_string();
+                    if self.kept.contains_key(&s) || self.tracked.contains_key(&s) {
+                        return Ok(Some(s));
+                    }
+                }
+                Ok(None)
+            }
+            Expr::Paren(p) => Ok(self.val(&p.expr, out)?.map(|t| format!("({t})"))),
+            Expr::Group(g) => self.val(&g.expr, out),
+            Expr::Reference(r) => {
+                let inner = self.val(&r.expr, out)?;
+                Ok(inner.map(|t| {
+                    if self.is_tracked_root(&r.expr).is_some() {
+                        format!("&{}{t}", if r.mutability.is_some() { "mut " } else { "" })
+                    } else {
+                        t
+                    }
+                }))
+            }
+            Expr::Unary(u) => {
+                let inner = self.val(&u.expr, out)?;
+                Ok(inner.map(|t| match u.op {
+                    syn::UnOp::Not(_) => format!("!{t}"),
+                    syn::UnOp::Neg(_) => format!("-{t}"),
+                    syn::UnOp::Deref(_) => format!("*{t}"),
+                    _ => t,
+                }))
+            }
+            Expr::Binary(b) => {
+                let mut o1 = Vec::new();
+                let l = self.val(&b.left, &mut o1)?;
+                let mut o2 = Vec::new();
+                let r = self.val(&b.right, &mut o2)?;
+                out.extend(o1);
+                out.extend(o2);
+                let op = b.op.to_token_stream().to_string();
+                match (l, r) {
+                    (Some(a), Some(c)) if !op.ends_with('=') || ["==", "!=", "<=", ">="].contains(&op.as_str()) => Ok(Some(format!("{a} {op} {c}"))),
+                    _ => Ok(None),
+                }
+            }
+            Expr::Try(t) => {
+                let inner = self.val(&t.expr, out)?;
+                match inner {
+                    Some(v) => {
+                        if self.flags.is_empty() {
+                            Ok(Some(format!("{v}?")))
+                        } else {
+                            let k = self.fresh("q");
+                            let r = self.ret_stmt("Err(e__)");
+                            out.push(format!("let {k} = match {v} {{ Ok(x__) => x__, Err(e__) => {{ {r} }} }};"));
+                            Ok(Some(k))
+                        }
+                    }
+                    None => {
+                        let ec = self.err_callee()?;
+                        let r = self.ret_stmt(&ec);
+                        self.note("S3", e.span(), "`?` on an erased call: nondeterministic error return");
+                        out.push(format!("if nd() {{ {r} }} {}", self.srcnote(e.span())));
+                        Ok(None)
+                    }
+                }
+            }
+            Expr::MethodCall(m) => {
+                let name = m.method.to_string();
+                if let Some(root) = self.is_tracked_root(&m.receiver) {
+                    // method of a tracked object
+                    let recv_text = self.val(&m.receiver, out)?.unwrap_or(root.clone());
+                    if self.events.contains_key(&name) && !self.events[&name].free {
+                        return Ok(Some(self.event_call(&name, Some(recv_text), &m.args, out)?));
+                    }
+                    if name == "clone" {
+                        return Ok(Some(format!("{recv_text}.clone()")));
+                    }
+                    if self.readonly.contains(&name) {
+                        for a in &m.args {
+                            self.effects(a, out)?;
+                        }
+                        return Ok(None);
+                    }
+                    if let Some((_, stmt)) = self.on_mutcall.iter().find(|(v, _)| *v == root).cloned() {
+                        for a in &m.args {
+                            self.effects(a, out)?;
+                        }
+                        self.used_hooks.push(format!("mutcall {root}"));
+                        out.push(format!("{stmt} {}", self.srcnote(e.span())));
+                        return Ok(None);
+                    }
+                    return Err(format!(
+                        "construct outside rule list (skeleton): method `.{name}()` on tracked object `{root}` is neither an event nor declared read-only (line {})",
+                        self.line(e.span())
+                    ));
+                }
+                // result/option predicates on kept values
+                if ["is_ok", "is_err", "is_some", "is_none"].contains(&name.as_str()) {
+                    if let Some(t) = self.val(&m.receiver, out)? {
+                        return Ok(Some(format!("{t}.{name}()")));
+                    }
+                    return Ok(None);
+                }
+                self.effects(&m.receiver, out)?;
+                for a in &m.args {
+                    self.effects(a, out)?;
+                }
+                Ok(None)
+            }
+            Expr::Call(c) => {
+                if let Expr::Path(p) = &*c.func {
+                    let last = p.path.segments.last().unwrap().ident.to_string();
+                    if self.events.get(&last).map(|e| e.free).unwrap_or(false) {
+                        return Ok(Some(self.event_call(&last, None, &c.args, out)?));
+                    }
+                    if p.path.segments.len() == 1 && (last == "Some" || last == "Ok") && c.args.len() == 1 {
+                        if let Some(t) = self.val(&c.args[0], out)? {
+                            return Ok(Some(format!("{last}({t})")));
+                        }
+                        return Ok(None);
+                    }
+                }
+                for a in &c.args {
+                    self.effects(a, out)?;
+                }
+                Ok(None)
+            }
+            Expr::If(_) | Expr::Match(_) | Expr::Block(_) => {
+                // value position: try to keep the value when every branch has one
+                if let Some(t) = self.branch_value(e)? {
+                    return Ok(Some(t));
+                }
+                let mut lines = Vec::new();
+                self.stmt_expr(e, &mut lines)?;
+                out.extend(lines);
+                Ok(None)
+            }
+            Expr::Field(f) => {
+                self.effects(&f.base, out)?;
+                Ok(None)
+            }
+            Expr::Index(i) => {
+                self.effects(&i.expr, out)?;
+                self.effects(&i.index, out)?;
+                Ok(None)
+            }
+            Expr::Cast(c) => self.val(&c.expr, out),
+            Expr::Tuple(t) => {
+                let mut parts = Vec::new();
+                let mut all = true;
+                for x in &t.elems {
+                    match self.val(x, out)? {
+                        Some(v) => parts.push(v),
+                        None => {
+                            all = false;
+                            parts.push("_".into())
+                        }
+                    }
+                }
+                if all && !parts.is_empty() {
+                    Ok(Some(format!("({})", parts.join(", "))))
+                } else {
+                    Ok(None)
+                }
+            }
+            Expr::Array(a) => {
+                for x in &a.elems {
+                    self.effects(x, out)?;
+                }
+                Ok(None)
+            }
+            Expr::Range(r) => {
+                if let Some(s) = &r.start {
+                    self.effects(s, out)?;
+                }
+                if let Some(s) = &r.end {
+                    self.effects(s, out)?;
+                }
+                Ok(None)
+            }
+            Expr::Closure(_) | Expr::Macro(_) | Expr::Lit(_) => Ok(None),
+            Expr::Struct(s) => {
+                for f in &s.fields {
+                    self.effects(&f.expr, out)?;
+                }
+                Ok(None)
+            }
+            Expr::Repeat(r) => {
+                self.effects(&r.expr, out)?;
+                Ok(None)
+            }
+            Expr::Assign(_) | Expr::Return(_) | Expr::Break(_) | Expr::Continue(_) | Expr::ForLoop(_) | Expr::While(_) | Expr::Loop(_) => {
+                let mut lines = Vec::new();
+                self.stmt_expr(e, &mut lines)?;
+                out.extend(lines);
+                Ok(None)
+            }
+            _ => Err(format!("construct outside rule list (skeleton): expression `{}`", {
+                let mut s = e.to_token_stream().to_string();
+                s.truncate(80);
+                s
+            })),
+        }
+    }
+
+    /// `if`/`match`/block in value position whose branches all have skeleton values → expression text
+    fn branch_value(&mut self, e: &syn::Expr) -> R<Option<String>> {
+        use syn::Expr;
+        match e {
+            Expr::Block(b) => self.block_value(&b.block),
+            Expr::If(i) => {
+                if matches!(&*i.cond, Expr::Let(_)) {
+                    return Ok(None);
+                }
+                let Some((_, eb)) = &i.else_branch else { return Ok(None) };
+                let save = self.snapshot();
+                let mut pre = Vec::new();
+                let c = self.cond(&i.cond, &mut pre)?;
+                if !pre.is_empty() {
+                    self.restore(save);
+                    return Ok(None);
+                }
+                let t = self.block_value(&i.then_branch)?;
+                let f = self.branch_value(eb)?;
+                match (t, f) {
+                    (Some(t), Some(f)) => Ok(Some(format!("if {c} {t} else {f}"))),
+                    _ => {
+                        self.restore(save);
+                        Ok(None)
+                    }
+                }
+            }
+            Expr::Match(m) => {
+                let save = self.snapshot();
+                let mut pre = Vec::new();
+                let scrut = self.val(&m.expr, &mut pre)?;
+                if scrut.is_some() || !pre.is_empty() {
+                    self.restore(save);
+                    return Ok(None);
+                }
+                let mut text = String::new();
+                let n = m.arms.len();
+                for (k, arm) in m.arms.iter().enumerate() {
+                    let v = match &*arm.body {
+                        Expr::Block(b) => self.block_value(&b.block)?,
+                        other => {
+                            let mut o = Vec::new();
+                            let v = self.val(other, &mut o)?;
+                            v.map(|v| format!("{{ {} {v} }}", o.join(" ")))
+                        }
+                    };
+                    let Some(v) = v else {
+                        self.restore(save);
+                        return Ok(None);
+                    };
+                    if k + 1 < n {
+                        text.push_str(&format!("if nd() {v} else "));
+                    } else {
+                        text.push_str(&v);
+                    }
+                }
+                self.note("S2", e.span(), "match on an erased value: nondeterministic choice between the arms");
+                Ok(Some(text))
+            }
+            other => {
+                let mut o = Vec::new();
+                let v = self.val(other, &mut o)?;
+                Ok(v.map(|v| format!("{{ {} {v} }}", o.join(" "))))
+            }
+        }
+    }
+    fn block_value(&mut self, b: &syn::Block) -> R<Option<String>> {
+        let Some(syn::Stmt::Expr(tail, None)) = b.stmts.last() else { return Ok(None) };
+        let save = self.snapshot();
+        let mut lines = Vec::new();
+        for s in &b.stmts[..b.stmts.len() - 1] {
+            self.stmt(s, &mut lines)?;
+        }
+        let v = self.val(tail, &mut lines)?;
+        match v {
+            Some(v) => Ok(Some(format!("{{ {} {v} }}", lines.join(" ")))),
+            None => {
+                self.restore(save);
+                Ok(None)
+            }
+        }
+    }
+    fn snapshot(&self) -> (usize, usize, usize, usize) {
+        (self.tmp, self.notes.len(), self.loop_no, self.used_hooks.len())
+    }
+    fn restore(&mut self, s: (usize, usize, usize, usize)) {
+        self.tmp = s.0;
+        self.notes.truncate(s.1);
+        self.loop_no = s.2;
+        self.used_hooks.truncate(s.3);
+    }
+
+    fn effects(&mut self, e: &syn::Expr, out: &mut Vec<String>) -> R<()> {
+        if let Some(v) = self.val(e, out)? {
+            // a tracked call evaluated for its effect only
+            if v.contains('(') && !v.starts_with('(') && !v.starts_with('!') {
+                out.push(format!("let _ = {v}; {}", self.srcnote(e.span())));
+            }
+        }
+        Ok(())
+    }
+
+    fn cond(&mut self, e: &syn::Expr, out: &mut Vec<String>) -> R<String> {
+        use syn::Expr;
+        match e {
+            Expr::Paren(p) => Ok(format!("({})", self.cond(&p.expr, out)?)),
+            Expr::Unary(u) if matches!(u.op, syn::UnOp::Not(_)) => {
+                let c = self.cond(&u.expr, out)?;
+                Ok(if c == "nd()" { c } else { format!("!{c}") })
+            }
+            Expr::Binary(b) if matches!(b.op, syn::BinOp::And(_) | syn::BinOp::Or(_)) => {
+                let l = self.cond(&b.left, out)?;
+                let mut o2 = Vec::new();
+                let r = self.cond(&b.right, &mut o2)?;
+                if !o2.is_empty() {
+                    return Err(format!(
+                        "construct outside rule list (skeleton): the right operand of a short-circuit condition has effects (line {})",
+                        self.line(e.span())
+                    ));
+                }
+                let op = if matches!(b.op, syn::BinOp::And(_)) { "&&" } else { "||" };
+                Ok(format!("{l} {op} {r}"))
+            }
+            _ => match self.val(e, out)? {
+                Some(t) => Ok(t),
+                None => {
+                    self.note("S2", e.span(), "condition on an erased value: nd()");
+                    Ok("nd()".into())
+                }
+            },
+        }
+    }
+
+    fn retval(&mut self, e: &syn::Expr, out: &mut Vec<String>) -> R<String> {
+        use syn::Expr;
+        match e {
+            Expr::Call(c) => {
+                if let Expr::Path(p) = &*c.func {
+                    let last = p.path.segments.last().unwrap().ident.to_string();
+                    if p.path.segments.len() == 1 && (last == "Ok" || last == "Some") {
+                        let unit_payload = self.returns.contains("<()") || self.returns.contains("<(),");
+                        let v = self.val(&c.args[0], out)?;
+                        return Ok(match (v, unit_payload) {
+                            (_, true) => format!("{last}(())"),
+                            (Some(v), false) => format!("{last}({v})"),
+                            (None, false) => format!("{last}(arb())"),
+                        });
+                    }
+                    if p.path.segments.len() == 1 && last == "Err" {
+                        // Err(EosError::X(..))
+                        let inner = nospace(&c.args[0]);
+                        if let Some(rest) = inner.strip_prefix("EosError::") {
+                            let variant: String = rest.chars().take_while(|c| c.is_alphanumeric() || *c == '_').collect();
+                            return Ok(format!("Err(SkErr::{variant})"));
+                        }
+                        return Ok("Err(SkErr::Other)".into());
+                    }
+                }
+            }
+            Expr::Path(p) if p.path.is_ident("None") => return Ok("None".into()),
+            Expr::If(i) if !matches!(&*i.cond, Expr::Let(_)) && i.else_branch.is_some() => {
+                // tail `if c { Ok(a) } else { Err(..) }`: keep the structure, each branch returns
+                let mut lines = Vec::new();
+                self.stmt_expr_tail(e, &mut lines)?;
+                out.extend(lines);
+                return Ok("__returned__".into());
+            }
+            Expr::Match(_) => {
+                let mut lines = Vec::new();
+                self.stmt_expr_tail(e, &mut lines)?;
+                out.extend(lines);
+                return Ok("__returned__".into());
+            }
+            Expr::Paren(p) => return self.retval(&p.expr, out),
+            _ => {}
+        }
+        match self.val(e, out)? {
+            Some(v) => Ok(v),
+            None => {
+                if self.returns == "()" {
+                    return Ok("()".into());
+                }
+                self.note("S1", e.span(), "erased return value: arbitrary");
+                Ok("arb()".into())
+            }
+        }
+    }
+
+    /// `if`/`match` whose branches are tail values: every branch ends in `return`
+    fn stmt_expr_tail(&mut self, e: &syn::Expr, out: &mut Vec<String>) -> R<()> {
+        use syn::Expr;
+        match e {
+            Expr::If(i) => {
+                let mut pre = Vec::new();
+                let c = self.cond_with_hooks(i, &mut pre)?;
+                out.extend(pre);
+                out.push(format!("if {} {{ {}", c.0, self.srcnote(i.cond.span())));
+                let mut inner = c.1;
+                self.block_tail(&i.then_branch, &mut inner)?;
+                out.extend(ind(inner));
+                match &i.else_branch {
+                    Some((_, eb)) => {
+                        out.push("} else {".into());
+                        let mut inner = Vec::new();
+                        match &**eb {
+                            Expr::Block(b) => self.block_tail(&b.block, &mut inner)?,
+                            other => self.stmt_expr_tail(other, &mut inner)?,
+                        }
+                        out.extend(ind(inner));
+                        out.push("}".into());
+                    }
+                    None => out.push("}".into()),
+                }
+                Ok(())
+            }
+            Expr::Match(m) => {
+                let mut pre = Vec::new();
+                let scrut = self.val(&m.expr, &mut pre)?;
+                out.extend(pre);
+                let n = m.arms.len();
+                for (k, arm) in m.arms.iter().enumerate() {
+                    let head = match &scrut {
+                        Some(s) => format!("{}if let {} = {s} {{", if k > 0 { "} else " } else { "" }, self.pat_text(&arm.pat)),
+                        None => {
+                            if k + 1 < n {
+                                format!("{}if nd() {{", if k > 0 { "} else " } else { "" })
+                            } else if k > 0 {
+                                "} else {".into()
+                            } else {
+                                "{".into()
+                            }
+                        }
+                    };
+                    out.push(format!("{head} {}", self.srcnote(arm.pat.span())));
+                    let mut inner = Vec::new();
+                    match &*arm.body {
+                        Expr::Block(b) => self.block_tail(&b.block, &mut inner)?,
+                        other => {
+                            let v = self.retval(other, &mut inner)?;
+                            if v != "__returned__" {
+                                inner.push(self.ret_stmt(&v));
+                            }
+                        }
+                    }
+                    out.extend(ind(inner));
+                }
+                if scrut.is_some() {
+                    out.push("} else { assume_unreachable(); }".into());
+                } else {
+                    out.push("}".into());
+                }
+                Ok(())
+            }
+            other => {
+                let v = self.retval(other, out)?;
+                if v != "__returned__" {
+                    out.push(self.ret_stmt(&v));
+                }
+                Ok(())
+            }
+        }
+    }
+    fn block_tail(&mut self, b: &syn::Block, out: &mut Vec<String>) -> R<()> {
+        let n = b.stmts.len();
+        for (k, s) in b.stmts.iter().enumerate() {
+            if k + 1 == n {
+                if let syn::Stmt::Expr(e, None) = s {
+                    return self.stmt_expr_tail(e, out);
+                }
+            }
+            self.stmt(s, out)?;
+        }
+        if self.returns == "()" {
+            out.push(self.ret_stmt("()"));
+        }
+        Ok(())
+    }
+
+    fn pat_text(&self, p: &syn::Pat) -> String {
+        // keep kept/tracked identifiers, erase the others
+        match p {
+            syn::Pat::Ident(i) => {
+                let n = i.ident.to_string();
+                if self.kept.contains_key(&n) || self.tracked.contains_key(&n) || n.chars().next().map(|c| c.is_uppercase()).unwrap_or(false) {
+                    n
+                } else {
+                    "_".into()
+                }
+            }
+            syn::Pat::Tuple(t) => format!("({})", t.elems.iter().map(|e| self.pat_text(e)).collect::<Vec<_>>().join(", ")),
+            syn::Pat::TupleStruct(t) => format!(
+                "{}({})",
+                t.path.to_token_stream().to_string().replace(' ', ""),
+                t.elems.iter().map(|e| self.pat_text(e)).collect::<Vec<_>>().join(", ")
+            ),
+            syn::Pat::Reference(r) => self.pat_text(&r.pat),
+            syn::Pat::Wild(_) => "_".into(),
+            syn::Pat::Lit(l) => l.to_token_stream().to_string(),
+            syn::Pat::Path(pp) => pp.to_token_stream().to_string().replace(' ', ""),
+            _ => "_".into(),
+        }
+    }
+
+    fn cond_with_hooks(&mut self, i: &syn::ExprIf, pre: &mut Vec<String>) -> R<(String, Vec<String>)> {
+        let c = self.cond(&i.cond, pre)?;
+        let mut hooks = Vec::new();
+        let toks = i.cond.to_token_stream();
+        for (pat, stmt, raw) in self.on_then.clone() {
+            if pattern::contains(&pat, toks.clone()) {
+                hooks.push(format!("{stmt} // hook: then `{raw}`"));
+                self.used_hooks.push(format!("then {raw}"));
+            }
+        }
+        Ok((c, hooks))
+    }
+
+    fn assign_hooks(&mut self, target: &syn::Expr, out: &mut Vec<String>) {
+        if let Some(root) = Self::root_ident(target) {
+            for (v, stmt) in self.on_assign.clone() {
+                if v == root {
+                    out.push(format!("{stmt} // hook: assign {v}"));
+                    self.used_hooks.push(format!("assign {v}"));
+                }
+            }
+        }
+    }
+
+    fn body(&mut self, b: &syn::Block, out: &mut Vec<String>) -> R<()> {
+        for s in &b.stmts {
+            self.stmt(s, out)?;
+        }
+        Ok(())
+    }
+
+    fn stmt(&mut self, s: &syn::Stmt, out: &mut Vec<String>) -> R<()> {
+        match s {
+            syn::Stmt::Local(l) => {
+                let Some(init) = &l.init else {
+                    return Ok(());
+                };
+                let mut pre = Vec::new();
+                let v = self.val(&init.expr, &mut pre)?;
+                out.extend(pre);
+                let pat = match &l.pat {
+                    syn::Pat::Type(t) => &*t.pat,
+                    p => p,
+                };
+                match pat {
+                    syn::Pat::Ident(id) => {
+                        let name = id.ident.to_string();
+                        let m = if id.mutability.is_some() { "mut " } else { "" };
+                        if self.kept.contains_key(&name) {
+                            let ty = self.kept[&name].clone();
+                            let rhs = v.unwrap_or_else(|| self.nd_of(&ty));
+                            out.push(format!("let {m}{name}: {ty} = {rhs}; {}", self.srcnote(l.span())));
+                        } else if self.tracked.contains_key(&name) {
+                            let ty = self.tracked[&name].clone();
+                            let rhs = v.unwrap_or_else(|| format!("arb::<{ty}>()"));
+                            out.push(format!("let {m}{name}: {ty} = {rhs}; {}", self.srcnote(l.span())));
+                        } else if let Some(v) = v {
+                            if v.contains('(') && !v.starts_with('(') {
+                                out.push(format!("let _ = {v}; {}", self.srcnote(l.span())));
+                            }
+                            self.dropped += 1;
+                        } else {
+                            self.dropped += 1;
+                        }
+                        self.assign_hooks(&syn::Expr::Path(syn::ExprPath { attrs: vec![], qself: None, path: id.ident.clone().into() }), out);
+                    }
+                    p => {
+                        // tuple pattern: kept components from the value, or arbitrary
+                        let mut names = Vec::new();
+                        collect_pat_idents(p, &mut names);
+                        let any_kept = names.iter().any(|n| self.kept.contains_key(n) || self.tracked.contains_key(n));
+                        if let (Some(v), true) = (&v, any_kept) {
+                            out.push(format!("let {} = {v}; {}", self.pat_text(p), self.srcnote(l.span())));
+                        } else {
+                            if let Some(v) = &v {
+                                if v.contains('(') && !v.starts_with('(') {
+                                    out.push(format!("let _ = {v}; {}", self.srcnote(l.span())));
+                                }
+                            }
+                            for n in names {
+                                if let Some(ty) = self.kept.get(&n).cloned() {
+                                    out.push(format!("let {n}: {ty} = {}; {}", self.nd_of(&ty), self.srcnote(l.span())));
+                                } else if let Some(ty) = self.tracked.get(&n).cloned() {
+                                    out.push(format!("let {n}: {ty} = arb::<{ty}>(); {}", self.srcnote(l.span())));
+                                }
+                            }
+                            self.dropped += 1;
+                        }
+                    }
+                }
+                Ok(())
+            }
+            syn::Stmt::Expr(e, semi) => {
+                if semi.is_none() && !matches!(e, syn::Expr::If(_) | syn::Expr::Match(_) | syn::Expr::ForLoop(_) | syn::Expr::While(_) | syn::Expr::Loop(_) | syn::Expr::Block(_)) {
+                    // a tail expression inside a nested statement block (value erased there)
+                    return self.effects(e, out);
+                }
+                self.stmt_expr(e, out)
+            }
+            syn::Stmt::Macro(_) => {
+                self.dropped += 1;
+                Ok(())
+            }
+            syn::Stmt::Item(_) => Ok(()),
+        }
+    }
+
+    fn stmt_expr(&mut self, e: &syn::Expr, out: &mut Vec<String>) -> R<()> {
+        use syn::Expr;
+        match e {
+            Expr::Assign(a) => {
+                let mut pre = Vec::new();
+                let rhs = self.val(&a.right, &mut pre)?;
+                out.extend(pre);
+                let lhs_key = nospace(&a.left);
+                let lhs_name = self.alias.get(&lhs_key).cloned().or_else(|| match &*a.left {
+                    Expr::Path(p) => p.path.get_ident().map(|i| i.to_string()),
+                    _ => None,
+                });
+                let deref_tracked = match &*a.left {
+                    Expr::Unary(u) if matches!(u.op, syn::UnOp::Deref(_)) => self.is_tracked_root(&u.expr),
+                    _ => None,
+                };
+                if let Some(n) = lhs_name.filter(|n| self.kept.contains_key(n)) {
+                    let ty = self.kept[&n].clone();
+                    out.push(format!("{n} = {}; {}", rhs.unwrap_or_else(|| self.nd_of(&ty)), self.srcnote(e.span())));
+                } else if let Some(n) = deref_tracked {
+                    let ty = self.tracked[&n].clone();
+                    out.push(format!("*{n} = {}; {}", rhs.unwrap_or_else(|| format!("arb::<{ty}>()")), self.srcnote(e.span())));
+                } else if let Some(n) = self.is_tracked_root(&a.left).filter(|_| matches!(&*a.left, Expr::Path(_))) {
+                    let ty = self.tracked[&n].clone();
+                    out.push(format!("{n} = {}; {}", rhs.unwrap_or_else(|| format!("arb::<{ty}>()")), self.srcnote(e.span())));
+                } else if let Some(root) = Self::root_ident(&a.left).filter(|r| self.tracked.contains_key(r)) {
+                    // a part of a tracked object is overwritten: the object becomes arbitrary
+                    let ty = self.tracked[&root].clone();
+                    self.note("S6", e.span(), "assignment into a tracked object: havoc");
+                    out.push(format!("{root} = arb::<{ty}>(); {}", self.srcnote(e.span())));
+                } else {
+                    self.dropped += 1;
+                }
+                self.assign_hooks(&a.left, out);
+                Ok(())
+            }
+            Expr::Binary(b) if b.op.to_token_stream().to_string().ends_with('=') && !["==", "!=", "<=", ">="].contains(&b.op.to_token_stream().to_string().as_str()) => {
+                let mut pre = Vec::new();
+                let rhs = self.val(&b.right, &mut pre)?;
+                out.extend(pre);
+                let key = nospace(&b.left);
+                let name = self.alias.get(&key).cloned().or_else(|| match &*b.left {
+                    Expr::Path(p) => p.path.get_ident().map(|i| i.to_string()),
+                    Expr::Unary(u) if matches!(u.op, syn::UnOp::Deref(_)) => match &*u.expr {
+                        Expr::Path(p) => p.path.get_ident().map(|i| i.to_string()),
+                        _ => None,
+                    },
+                    _ => None,
+                });
+                if let Some(n) = name.filter(|n| self.kept.contains_key(n)) {
+                    let ty = self.kept[&n].clone();
+                    match rhs {
+                        Some(r) => out.push(format!("{n} {} {r}; {}", b.op.to_token_stream(), self.srcnote(e.span()))),
+                        None => out.push(format!("{n} = {}; {}", self.nd_of(&ty), self.srcnote(e.span()))),
+                    }
+                } else if let Some(root) = Self::root_ident(&b.left).filter(|r| self.tracked.contains_key(r)) {
+                    let ty = self.tracked[&root].clone();
+                    out.push(format!("{root} = arb::<{ty}>(); {}", self.srcnote(e.span())));
+                } else {
+                    self.dropped += 1;
+                }
+                self.assign_hooks(&b.left, out);
+                Ok(())
+            }
+            Expr::If(i) => {
+                if let Expr::Let(l) = &*i.cond {
+                    // `if let PAT = E`: kept when E is a skeleton value, else nondeterministic
+                    let mut pre = Vec::new();
+                    let v = self.val(&l.expr, &mut pre)?;
+                    out.extend(pre);
+                    let mut names = Vec::new();
+                    collect_pat_idents(&l.pat, &mut names);
+                    let head = match &v {
+                        Some(v) => format!("if let {} = {v} {{", self.pat_text(&l.pat)),
+                        None => "if nd() {".to_string(),
+                    };
+                    let mut inner = Vec::new();
+                    if v.is_none() {
+                        for n in &names {
+                            if let Some(ty) = self.kept.get(n).cloned() {
+                                inner.push(format!("let {n}: {ty} = {};", self.nd_of(&ty)));
+                            } else if let Some(ty) = self.tracked.get(n).cloned() {
+                                inner.push(format!("let {n}: {ty} = arb::<{ty}>();"));
+                            }
+                        }
+                    }
+                    self.body(&i.then_branch, &mut inner)?;
+                    let mut einner = Vec::new();
+                    if let Some((_, eb)) = &i.else_branch {
+                        match &**eb {
+                            Expr::Block(b) => self.body(&b.block, &mut einner)?,
+                            other => self.stmt_expr(other, &mut einner)?,
+                        }
+                    }
+                    if inner.is_empty() && einner.is_empty() {
+                        self.dropped += 1;
+                        return Ok(());
+                    }
+                    out.push(format!("{head} {}", self.srcnote(i.cond.span())));
+                    out.extend(ind(inner));
+                    if !einner.is_empty() {
+                        out.push("} else {".into());
+                        out.extend(ind(einner));
+                    }
+                    out.push("}".into());
+                    return Ok(());
+                }
+                let mut pre = Vec::new();
+                let (c, hooks) = self.cond_with_hooks(i, &mut pre)?;
+                let mut inner = hooks;
+                self.body(&i.then_branch, &mut inner)?;
+                let mut einner = Vec::new();
+                if let Some((_, eb)) = &i.else_branch {
+                    match &**eb {
+                        Expr::Block(b) => self.body(&b.block, &mut einner)?,
+                        other => self.stmt_expr(other, &mut einner)?,
+                    }
+                }
+                out.extend(pre);
+                if inner.is_empty() && einner.is_empty() {
+                    self.dropped += 1;
+                    return Ok(());
+                }
+                out.push(format!("if {c} {{ {}", self.srcnote(i.cond.span())));
+                out.extend(ind(inner));
+                if !einner.is_empty() {
+                    out.push("} else {".into());
+                    out.extend(ind(einner));
+                }
+                out.push("}".into());
+                Ok(())
+            }
+            Expr::Match(m) => {
+                let mut pre = Vec::new();
+                let scrut = self.val(&m.expr, &mut pre)?;
+                out.extend(pre);
+                let mut arms: Vec<(String, Vec<String>)> = Vec::new();
+                for arm in &m.arms {
+                    let mut inner = Vec::new();
+                    let mut names = Vec::new();
+                    collect_pat_idents(&arm.pat, &mut names);
+                    if scrut.is_none() {
+                        for n in &names {
+                            if let Some(ty) = self.kept.get(n).cloned() {
+                                inner.push(format!("let {n}: {ty} = {};", self.nd_of(&ty)));
+                            } else if let Some(ty) = self.tracked.get(n).cloned() {
+                                inner.push(format!("let {n}: {ty} = arb::<{ty}>();"));
+                            }
+                        }
+                    }
+                    match &*arm.body {
+                        Expr::Block(b) => self.body(&b.block, &mut inner)?,
+                        other => self.stmt_expr_or_effects(other, &mut inner)?,
+                    }
+                    arms.push((self.pat_text(&arm.pat), inner));
+                }
+                if arms.iter().all(|(_, b)| b.is_empty()) {
+                    self.dropped += 1;
+                    return Ok(());
+                }
+                match scrut {
+                    Some(s) => {
+                        out.push(format!("match {s} {{ {}", self.srcnote(m.expr.span())));
+                        for (p, b) in arms {
+                            out.push(format!("    {p} => {{"));
+                            out.extend(ind(ind(b)));
+                            out.push("    }".into());
+                        }
+                        out.push("}".into());
+                    }
+                    None => {
+                        self.note("S2", e.span(), "match on an erased value: nondeterministic choice between the arms");
+                        let n = arms.len();
+                        for (k, (_, b)) in arms.into_iter().enumerate() {
+                            if k == 0 {
+                                out.push(format!("if nd() {{ {}", self.srcnote(m.expr.span())));
+                            } else if k + 1 < n {
+                                out.push("} else if nd() {".into());
+                            } else {
+                                out.push("} else {".into());
+                            }
+                            out.extend(ind(b));
+                        }
+                        out.push("}".into());
+                    }
+                }
+                Ok(())
+            }
+            Expr::ForLoop(f) => {
+                let label = f.label.as_ref().map(|l| l.name.ident.to_string());
+                let ltxt = label.as_ref().map(|l| format!("'{l}: ")).unwrap_or_default();
+                let no = self.loop_no;
+                self.loop_no += 1;
+                let spec = self.loop_specs.get(&no).cloned().unwrap_or_default();
+                let mut range = &*f.expr;
+                while let Expr::Paren(p) = range {
+                    range = &p.expr;
+                }
+                if let Expr::Range(r) = range {
+                    let mut pre = Vec::new();
+                    let lo = match &r.start {
+                        Some(s) => self.val(s, &mut pre)?,
+                        None => None,
+                    };
+                    let hi = match &r.end {
+                        Some(s) => self.val(s, &mut pre)?,
+                        None => None,
+                    };
+                    out.extend(pre);
+                    let counter = match &*f.pat {
+                        syn::Pat::Ident(i) if self.kept.contains_key(&i.ident.to_string()) => i.ident.to_string(),
+                        _ => self.fresh("i"),
+                    };
+                    let lo = lo.unwrap_or_else(|| "nd_usize()".into());
+                    let hi_v = match hi {
+                        Some(h) => h,
+                        None => {
+                            let h = self.fresh("hi");
+                            out.push(format!("let {h}: usize = nd_usize();"));
+                            h
+                        }
+                    };
+                    let closed = matches!(r.limits, syn::RangeLimits::Closed(_));
+                    self.note("S4", e.span(), "for-loop over a range desugared to while with explicit counter");
+                    out.push(format!("let mut {counter}: usize = {lo}; {}", self.srcnote(f.pat.span())));
+                    out.push(format!("{ltxt}while {counter} {} {hi_v}", if closed { "<=" } else { "<" }));
+                    out.extend(ind(spec));
+                    out.push("{".into());
+                    self.loops.push(LoopCtx { label, counter: Some(counter.clone()) });
+                    let mut inner = Vec::new();
+                    self.body(&f.body, &mut inner)?;
+                    self.loops.pop();
+                    inner.push(format!("{counter} += 1;"));
+                    out.extend(ind(inner));
+                    out.push("}".into());
+                } else {
+                    let mut pre = Vec::new();
+                    self.effects(&f.expr, &mut pre)?;
+                    out.extend(pre);
+                    self.note("S4", e.span(), "for-loop over a collection: `while nd()`");
+                    out.push(format!("{ltxt}while nd() {}", self.srcnote(f.pat.span())));
+                    out.extend(ind(spec));
+                    out.push("{".into());
+                    self.loops.push(LoopCtx { label, counter: None });
+                    let mut inner = Vec::new();
+                    let mut names = Vec::new();
+                    collect_pat_idents(&f.pat, &mut names);
+                    for n in &names {
+                        if let Some(ty) = self.kept.get(n).cloned() {
+                            inner.push(format!("let {n}: {ty} = {};", self.nd_of(&ty)));
+                        } else if let Some(ty) = self.tracked.get(n).cloned() {
+                            inner.push(format!("let {n}: {ty} = arb::<{ty}>();"));
+                        }
+                    }
+                    self.body(&f.body, &mut inner)?;
+                    self.loops.pop();
+                    out.extend(ind(inner));
+                    out.push("}".into());
+                }
+                Ok(())
+            }
+            Expr::While(w) => {
+                let label = w.label.as_ref().map(|l| l.name.ident.to_string());
+                let ltxt = label.as_ref().map(|l| format!("'{l}: ")).unwrap_or_default();
+                let no = self.loop_no;
+                self.loop_no += 1;
+                let spec = self.loop_specs.get(&no).cloned().unwrap_or_default();
+                let mut pre = Vec::new();
+                let c = self.cond(&w.cond, &mut pre)?;
+                if !pre.is_empty() {
+                    return Err("construct outside rule list (skeleton): while condition with effects".into());
+                }
+                out.push(format!("{ltxt}while {c} {}", self.srcnote(w.cond.span())));
+                out.extend(ind(spec));
+                out.push("{".into());
+                self.loops.push(LoopCtx { label, counter: None });
+                let mut inner = Vec::new();
+                self.body(&w.body, &mut inner)?;
+                self.loops.pop();
+                out.extend(ind(inner));
+                out.push("}".into());
+                Ok(())
+            }
+            Expr::Loop(l) => {
+                let label = l.label.as_ref().map(|l| l.name.ident.to_string());
+                let ltxt = label.as_ref().map(|l| format!("'{l}: ")).unwrap_or_default();
+                let no = self.loop_no;
+                self.loop_no += 1;
+                let spec = self.loop_specs.get(&no).cloned().unwrap_or_default();
+                out.push(format!("{ltxt}loop {}", self.srcnote(l.loop_token.span())));
+                out.extend(ind(spec));
+                out.push("{".into());
+                self.loops.push(LoopCtx { label, counter: None });
+                let mut inner = Vec::new();
+                self.body(&l.body, &mut inner)?;
+                self.loops.pop();
+                out.extend(ind(inner));
+                out.push("}".into());
+                Ok(())
+            }
+            Expr::Break(b) => {
+                if b.expr.is_some() {
+                    return Err("construct outside rule list (skeleton): break with value".into());
+                }
+                let l = b.label.as_ref().map(|l| format!(" '{}", l.ident)).unwrap_or_default();
+                out.push(format!("break{l}; {}", self.srcnote(e.span())));
+                Ok(())
+            }
+            Expr::Continue(c) => {
+                let target = match &c.label {
+                    Some(l) => self.loops.iter().rev().find(|x| x.label.as_deref() == Some(&l.ident.to_string())),
+                    None => self.loops.last(),
+                };
+                if let Some(LoopCtx { counter: Some(k), .. }) = target {
+                    out.push(format!("{k} += 1;"));
+                }
+                let l = c.label.as_ref().map(|l| format!(" '{}", l.ident)).unwrap_or_default();
+                out.push(format!("continue{l}; {}", self.srcnote(e.span())));
+                Ok(())
+            }
+            Expr::Return(r) => {
+                match &r.expr {
+                    Some(x) => {
+                        let mut pre = Vec::new();
+                        let v = self.retval(x, &mut pre)?;
+                        out.extend(pre);
+                        if v != "__returned__" {
+                            out.push(format!("{} {}", self.ret_stmt(&v), self.srcnote(e.span())));
+                        }
+                    }
+                    None => out.push(format!("{} {}", self.ret_stmt("()"), self.srcnote(e.span()))),
+                }
+                Ok(())
+            }
+            Expr::Block(b) => {
+                let mut inner = Vec::new();
+                self.body(&b.block, &mut inner)?;
+                if !inner.is_empty() {
+                    out.push("{".into());
+                    out.extend(ind(inner));
+                    out.push("}".into());
+                }
+                Ok(())
+            }
+            Expr::Macro(_) => {
+                self.dropped += 1;
+                Ok(())
+            }
+            other => self.stmt_expr_or_effects(other, out),
+        }
+    }
+
+    fn stmt_expr_or_effects(&mut self, e: &syn::Expr, out: &mut Vec<String>) -> R<()> {
+        use syn::Expr;
+        match e {
+            Expr::Assign(_) | Expr::If(_) | Expr::Match(_) | Expr::ForLoop(_) | Expr::While(_) | Expr::Loop(_) | Expr::Break(_) | Expr::Continue(_) | Expr::Return(_) | Expr::Block(_) => {
+                self.stmt_expr(e, out)
+            }
+            Expr::Binary(b) if b.op.to_token_stream().to_string().ends_with('=') && !["==", "!=", "<=", ">="].contains(&b.op.to_token_stream().to_string().as_str()) => self.stmt_expr(e, out),
+            _ => {
+                let mut pre = Vec::new();
+                let v = self.val(e, &mut pre)?;
+                out.extend(pre);
+                match v {
+                    Some(v) if v.contains('(') && !v.starts_with('(') && !v.starts_with('!') => {
+                        if v.ends_with('?') {
+                            out.push(format!("{v}; {}", self.srcnote(e.span())));
+                        } else {
+                            out.push(format!("let _ = {v}; {}", self.srcnote(e.span())));
+                        }
+                    }
+                    _ => self.dropped += 1,
+                }
+                Ok(())
+            }
+        }
+    }
+}
+
+fn collect_pat_idents(p: &syn::Pat, out: &mut Vec<String>) {
+    match p {
+        syn::Pat::Ident(i) => out.push(i.ident.to_string()),
+        syn::Pat::Tuple(t) => t.elems.iter().for_each(|e| collect_pat_idents(e, out)),
+        syn::Pat::TupleStruct(t) => t.elems.iter().for_each(|e| collect_pat_idents(e, out)),
+        syn::Pat::Type(t) => collect_pat_idents(&t.pat, out),
+        syn::Pat::Reference(r) => collect_pat_idents(&r.pat, out),
+        syn::Pat::Slice(s) => s.elems.iter().for_each(|e| collect_pat_idents(e, out)),
+        _ => {}
+    }
+}
+
+pub fn skeleton_fn(ctx: &mut Ctx, blk: &Block) -> Result<(String, Value), String> {
+    if blk.args.len() < 2 {
+        return Err("skeleton: expected <file> <path>".into());
+    }
+    let (file, path) = (blk.args[0].clone(), blk.args[1].clone());
+    ctx.load(&file)?;
+    let src = ctx.src(&file);
+    let ast = ctx.ast(&file);
+    let offs = Offsets::new(src);
+    let f = find_fn(ast, &path)?;
+    let short = path.rsplit("::").next().unwrap().split('#').next().unwrap().to_string();
+    let name = blk.opt("name").map(|s| s.to_string()).unwrap_or(short);
+
+    let mut sk = Sk {
+        src,
+        offs: &offs,
+        kept: HashMap::new(),
+        alias: HashMap::new(),
+        tracked: HashMap::new(),
+        events: HashMap::new(),
+        readonly: vec![],
+        flags: vec![],
+        on_assign: vec![],
+        on_then: vec![],
+        on_mutcall: vec![],
+        loop_specs: HashMap::new(),
+        loop_no: 0,
+        loops: vec![],
+        returns: String::new(),
+        tmp: 0,
+        notes: vec![],
+        dropped: 0,
+        used_hooks: vec![],
+    };
+    let mut params_text = String::new();
+    let mut declared_hooks: Vec<String> = Vec::new();
+    for s in &blk.subs {
+        match s.kind.as_str() {
+            "returns" => sk.returns = s.arg.trim().to_string(),
+            "params" => params_text = s.arg.trim().to_string(),
+            "keep" => {
+                let (lhs, ty) = s.arg.rsplit_once(':').ok_or("keep: <expr> [as <name>]: <type>")?;
+                let (expr, nm) = match lhs.split_once(" as ") {
+                    Some((e, n)) => (e.trim().to_string(), n.trim().to_string()),
+                    None => (lhs.trim().to_string(), lhs.trim().to_string()),
+                };
+                sk.kept.insert(nm.clone(), ty.trim().to_string());
+                if expr != nm {
+                    sk.alias.insert(expr.split_whitespace().collect::<Vec<_>>().join(""), nm);
+                }
+            }
+            "track" => {
+                let (n, ty) = s.arg.split_once(':').ok_or("track: <name>: <type>")?;
+                sk.tracked.insert(n.trim().to_string(), ty.trim().to_string());
+            }
+            "event" => {
+                let mut it = s.arg.split_whitespace();
+                let n = it.next().ok_or("event: <name>")?.to_string();
+                let mut ev = Event { args: vec![], free: false };
+                for w in it {
+                    if let Some(a) = w.strip_prefix("args=") {
+                        ev.args = a.split(',').filter(|x| !x.is_empty()).map(|x| x.parse().unwrap_or(999)).collect();
+                    } else if w == "free" {
+                        ev.free = true;
+                    }
+                }
+                sk.events.insert(n, ev);
+            }
+            "readonly" => sk.readonly.extend(s.arg.split(',').map(|x| x.trim().to_string())),
+            "flag" => sk.flags.push(s.arg.trim().to_string()),
+            "on" => {
+                let (head, stmt) = crate::extract::split_arrow(&s.arg)?;
+                let (kind, what) = head.split_once(char::is_whitespace).ok_or("on: <kind> <what> => <stmt>")?;
+                match kind {
+                    "assign" => sk.on_assign.push((what.trim().to_string(), stmt)),
+                    "mutcall" => sk.on_mutcall.push((what.trim().to_string(), stmt)),
+                    "then" => sk.on_then.push((pattern::parse_pattern(what.trim())?, stmt, what.trim().to_string())),
+                    k => return Err(format!("on: unknown kind {k}")),
+                }
+                declared_hooks.push(format!("{kind} {}", what.trim()));
+            }
+            "loop" => {
+                let k: usize = s.arg.trim().parse().map_err(|_| "loop index")?;
+                sk.loop_specs.insert(k, s.lines.clone());
+            }
+            k => return Err(format!("skeleton: unknown sub-directive `{k}`")),
+        }
+    }
+    if sk.returns.is_empty() {
+        return Err("skeleton: //@returns missing".into());
+    }
+    // parameters: every named skeleton parameter must be a parameter of the real function
+    let real_params: Vec<String> = f
+        .sig
+        .inputs
+        .iter()
+        .map(|a| match a {
+            syn::FnArg::Receiver(_) => "self".to_string(),
+            syn::FnArg::Typed(t) => t.pat.to_token_stream().to_string().replace("mut ", ""),
+        })
+        .collect();
+    for p in params_text.split(',').map(|s| s.trim()).filter(|s| !s.is_empty()) {
+        let pname = if p.contains("self") && !p.contains(':') {
+            "self".to_string()
+        } else {
+            p.split(':').next().unwrap().trim().trim_start_matches("mut ").trim().to_string()
+        };
+        if !real_params.contains(&pname) {
+            return Err(format!("lost anchor: skeleton parameter `{pname}` is not a parameter of {path} ({})", real_params.join(", ")));
+        }
+        if pname == "self" {
+            continue;
+        }
+        let ty = p.split_once(':').map(|x| x.1.trim().to_string()).unwrap_or_default();
+        let base = ty.trim_start_matches('&').trim_start_matches("mut ").trim().to_string();
+        if ["usize", "bool", "i32", "u64"].contains(&base.as_str()) {
+            sk.kept.insert(pname, base);
+        } else if !sk.kept.contains_key(&pname) {
+            sk.tracked.insert(pname, base);
+        }
+    }
+    if params_text.contains("self") {
+        let self_ty = blk.opt("self").unwrap_or("Self").to_string();
+        sk.tracked.insert("self".into(), self_ty);
+    }
+
+    let mut body: Vec<String> = Vec::new();
+    for fl in &sk.flags {
+        body.push(format!("let mut {fl}: bool = false;"));
+    }
+    // aliases that are not parameters: arbitrary values fixed at entry
+    let alias_names: Vec<(String, String)> = sk.alias.iter().map(|(k, v)| (k.clone(), v.clone())).collect();
+    for (expr, n) in alias_names {
+        if !params_text.split(',').any(|p| p.trim().trim_start_matches("mut ").starts_with(&format!("{n}:"))) {
+            let ty = sk.kept[&n].clone();
+            body.push(format!("let {n}: {ty} = {}; // kept expression `{expr}`", sk.nd_of(&ty)));
+        }
+    }
+    // kept variables that the function never binds (e.g. after a refactoring) are arbitrary constants:
+    // the contract then fails or holds on its own merits instead of the unit being rejected
+    {
+        struct Binds(Vec<String>);
+        impl<'ast> syn::visit::Visit<'ast> for Binds {
+            fn visit_pat_ident(&mut self, i: &'ast syn::PatIdent) {
+                self.0.push(i.ident.to_string());
+            }
+        }
+        let mut b = Binds(vec![]);
+        syn::visit::Visit::visit_block(&mut b, f.block);
+        let aliased: Vec<String> = sk.alias.values().cloned().collect();
+        let mut names: Vec<(String, String)> = sk.kept.iter().map(|(k, v)| (k.clone(), v.clone())).collect();
+        names.sort();
+        for (n, ty) in names {
+            let is_param = params_text.split(',').any(|p| p.trim().trim_start_matches("mut ").starts_with(&format!("{n}:")));
+            if !b.0.contains(&n) && !is_param && !aliased.contains(&n) {
+                body.push(format!("let mut {n}: {ty} = {}; // kept variable not bound by the function: arbitrary", sk.nd_of(&ty)));
+                sk.notes.push(("S8".into(), 0, format!("kept variable `{n}` is not bound by the function: arbitrary value")));
+            }
+        }
+    }
+    sk.block_tail(f.block, &mut body)?;
+    // every declared hook must have fired (lost anchor otherwise)
+    for h in &declared_hooks {
+        if !sk.used_hooks.iter().any(|u| u == h) {
+            return Err(format!("lost anchor: hook `{h}` matched nothing in {path}"));
+        }
+    }
+    let ret = if sk.flags.is_empty() { sk.returns.clone() } else { format!("({}, {})", sk.returns, sk.flags.iter().map(|_| "bool").collect::<Vec<_>>().join(", ")) };
+    let spec = blk.spec.join("\n");
+    let mut text = String::new();
+    text.push_str("#[verifier::exec_allows_no_decreases_clause]\n");
+    text.push_str(&format!("pub fn {name}({params_text}) -> (r: {ret})\n{spec}\n{{\n"));
+    for l in ind(body) {
+        text.push_str(&l);
+        text.push('\n');
+    }
+    text.push_str("}\n");
+    let (s0, e0) = (offs.range(src, f.sig.span()).0, offs.range(src, f.block.span()).1);
+    let mut counts: HashMap<String, usize> = HashMap::new();
+    for (r, _, _) in &sk.notes {
+        *counts.entry(r.clone()).or_default() += 1;
+    }
+    let rewrites: Vec<Value> = sk.notes.iter().map(|(r, l, n)| json!({"rule": r, "line": l, "note": n})).collect();
+    let rep = json!({
+        "item": path, "file": file, "mode": "skeleton",
+        "src_lines": [line_of(src, s0), line_of(src, e0)], "src_bytes": [s0, e0],
+        "rewrites": rewrites,
+        "kept": sk.kept.keys().collect::<Vec<_>>(), "tracked": sk.tracked.keys().collect::<Vec<_>>(),
+        "dropped": [format!("{} data-only statements (S1)", sk.dropped), "all numerical content".to_string()],
+    });
+    Ok((text, rep))
 }
